@@ -111,7 +111,10 @@ func (ch *Channel) Invoke(ctx context.Context, methodName string, req, resp inte
 	case <-respCh:
 	}
 	if err != nil {
-		return err
+		if ctxErr := ctx.Err(); ctxErr != nil {
+			err = ctxErr
+		}
+		return statusFromContextError(err)
 	}
 	return codec.Unmarshal(b, resp)
 }
@@ -395,6 +398,11 @@ func (cs *clientStream) doHttpCall(transport http.RoundTripper, req *http.Reques
 		}
 		defer cs.rMu.Unlock()
 
+		if ctxErr := cs.ctx.Err(); rErr != nil && ctxErr != nil {
+			// The context ended: report that, as a gRPC status, instead of
+			// whatever I/O error the cancellation provoked.
+			rErr = statusFromContextError(ctxErr)
+		}
 		if rErr == io.EOF {
 			// The reply ended (or the connection was closed) before the
 			// trailer frame was seen. That is a failed call: a bare io.EOF
@@ -463,12 +471,7 @@ func (cs *clientStream) doHttpCall(transport http.RoundTripper, req *http.Reques
 			// final message is a trailer (need lock to write to cs.tr)
 			cs.rMu.Lock()
 			rMuHeld = true // defer above will unlock for us
-			cs.rErr = readProtoMessage(reply.Body, cs.codec, int32(-sz), &cs.tr)
-			if cs.rErr != nil {
-				if cs.rErr == io.EOF {
-					cs.rErr = io.ErrUnexpectedEOF
-				}
-			}
+			rErr = readProtoMessage(reply.Body, cs.codec, int32(-sz), &cs.tr)
 			if len(cs.tr.Metadata) > 0 && len(cs.copts.Trailers) > 0 {
 				cs.copts.SetTrailers(metadataFromProto(cs.tr.Metadata))
 			}
